@@ -308,6 +308,19 @@ func needsBacktickQuoting(name string) bool {
 	return false
 }
 
+// exprFallbackText renders an expression that has no dedicated text form as the header
+// line of its EXPLAIN node, never as a Go struct dump (which would leak token positions
+// and heap addresses into the output)
+func exprFallbackText(expr ast.Expression) string {
+	if expr == nil {
+		return ""
+	}
+	var sb strings.Builder
+	Node(&sb, expr, 0)
+	line, _, _ := strings.Cut(sb.String(), "\n")
+	return line
+}
+
 // FormatDataType formats a DataType for EXPLAIN AST output
 func FormatDataType(dt *ast.DataType) string {
 	if dt == nil {
@@ -364,10 +377,10 @@ func FormatDataType(dt *ast.DataType) string {
 			if lit, ok := unary.Operand.(*ast.Literal); ok {
 				params = append(params, fmt.Sprintf("%s%v", unary.Op, lit.Value))
 			} else {
-				params = append(params, fmt.Sprintf("%v", p))
+				params = append(params, exprFallbackText(p))
 			}
 		} else {
-			params = append(params, fmt.Sprintf("%v", p))
+			params = append(params, exprFallbackText(p))
 		}
 	}
 	return fmt.Sprintf("%s(%s)", dt.Name, strings.Join(params, ", "))
@@ -389,7 +402,7 @@ func formatBinaryExprForType(expr *ast.BinaryExpr) string {
 	} else if ident, ok := expr.Left.(*ast.Identifier); ok {
 		left = ident.Name()
 	} else {
-		left = fmt.Sprintf("%v", expr.Left)
+		left = exprFallbackText(expr.Left)
 	}
 
 	// Format right side
@@ -401,7 +414,7 @@ func formatBinaryExprForType(expr *ast.BinaryExpr) string {
 		// Handle unary expressions like -100
 		right = formatUnaryExprForType(unary)
 	} else {
-		right = fmt.Sprintf("%v", expr.Right)
+		right = exprFallbackText(expr.Right)
 	}
 
 	return left + " " + expr.Op + " " + right
@@ -412,7 +425,7 @@ func formatUnaryExprForType(expr *ast.UnaryExpr) string {
 	if lit, ok := expr.Operand.(*ast.Literal); ok {
 		return expr.Op + fmt.Sprintf("%v", lit.Value)
 	}
-	return expr.Op + fmt.Sprintf("%v", expr.Operand)
+	return expr.Op + exprFallbackText(expr.Operand)
 }
 
 // formatFunctionCallForType formats a function call for use in type parameters
@@ -447,7 +460,7 @@ func formatExprForType(expr ast.Expression) string {
 	case *ast.DataType:
 		return FormatDataType(e)
 	default:
-		return fmt.Sprintf("%v", expr)
+		return exprFallbackText(expr)
 	}
 }
 
@@ -626,7 +639,7 @@ func formatExprAsString(expr ast.Expression) string {
 		}
 		return exprStr + " " + keyword + " " + listStr
 	default:
-		return fmt.Sprintf("%v", expr)
+		return exprFallbackText(expr)
 	}
 }
 
